@@ -23,6 +23,18 @@ def main():
         import check_tree
 
         return check_tree.run(a.prop, a.tier, replay=a.replay)
+    if a.prop == "C11":
+        import check_c11
+
+        return check_c11.run(a.prop, a.tier, replay=a.replay)
+    if a.prop == "C09":
+        import check_pair
+
+        return check_pair.run_c09(a.prop, a.tier, replay=a.replay)
+    if a.prop == "C04":
+        import check_pair
+
+        return check_pair.run_c04(a.prop, a.tier, replay=a.replay)
     if a.prop == "C13":
         import check_c13
 
